@@ -16,6 +16,7 @@ import (
 // ja is left out: in mode ha its state-machine text assigns vn_state, which only the hy/vn processor
 // declares (the generated file does not elaborate; C18-class, outside this property).
 var c01AllSizes = []string{"add", "clr", "cpy", "dec", "inc", "jz", "mult", "nop", "rset", "i2r", "r2o", "div", "j", "jo", "mulc"}
+
 // addi is checked in an opcode set of its own: together with i2r the generated processor declares
 // "reg i0_recv" twice (both opcodes emit it; addi is missing from procbuilder's "inputrecv" unique list),
 // which no Verilog front end accepts - a C18-class matter, outside this property.
@@ -242,8 +243,11 @@ func C01(tier string) int {
 			"HDL flags without a simulator counterpart (carryflag, i/o handshake registers) are arbitrary before the step and not compared",
 			"two-state Verilog semantics of /verif/vlog; multipliers/dividers are distributed over operand multiplexers on both sides so that both reduce to the same leaf operations",
 		},
-		Rule:  "one obligation per compared state element (pc, each register, each output port) per (architecture, opcode); programs = (architecture, opcode) pairs",
-		Extra: func(cov map[string]interface{}, outs []Outcome) { cov["programs"] = len(outs); cov["disagreements_checked"] = len(outs) },
+		Rule: "one obligation per compared state element (pc, each register, each output port) per (architecture, opcode); programs = (architecture, opcode) pairs",
+		Extra: func(cov map[string]interface{}, outs []Outcome) {
+			cov["programs"] = len(outs)
+			cov["disagreements_checked"] = len(outs)
+		},
 	}
 	sp.Bounds = map[string]interface{}{"architectures": func() []string {
 		var r []string
